@@ -4,7 +4,7 @@ import "golang.org/x/tools/go/ssa"
 
 func init() {
 	checks["C20"] = func(c *CheckCtx) {
-		params := map[string]int64{"maxlen": 7}
+		params := map[string]int64{"maxlen": 8}
 		if c.Tier == "thorough" {
 			params = map[string]int64{"maxlen": 10}
 		}
